@@ -184,6 +184,16 @@ func Contents(names []string) []Content {
 			return J{"$ref": AuxA + "#/definitions/" + EscName(nm)}
 		}).Aux = true
 	}
+	add("twoImportsCaseDifferent", "collide-imports", func(b *BundleSpec, s int) J {
+		// two imported definitions of one auxiliary file whose names differ only by letter case: both map to the same generated name
+		b.Add(AuxA, P(J{"type": "string", "description": "upper"}, "definitions", "Item"), P(J{"type": "integer", "description": "lower"}, "definitions", "item"))
+		return J{"type": "object", "properties": J{"first": J{"$ref": AuxA + "#/definitions/Item"}, "second": J{"$ref": AuxA + "#/definitions/item"}}}
+	}).Aux = true
+	add("twoImportsSameNameTwoFiles", "collide-imports", func(b *BundleSpec, s int) J {
+		b.Add(AuxA, P(simpleObj("fromA"), "definitions", "dup"))
+		b.Add(AuxC, P(simpleObj("fromC"), "definitions", "dup"))
+		return J{"type": "object", "properties": J{"first": J{"$ref": AuxA + "#/definitions/dup"}, "second": J{"$ref": AuxC + "#/definitions/dup"}}}
+	}).Aux = true
 	add("refAuxDeep", "ref-aux-chain", func(b *BundleSpec, s int) J {
 		b.Add(AuxA, P(J{"type": "object", "properties": J{"d": J{"$ref": "deep/b.json#/definitions/leaf"}}}, "definitions", "chain"))
 		b.Add(AuxB, P(simpleObj("leafB"), "definitions", "leaf"))
